@@ -19,6 +19,7 @@ Stdlib only.  Nothing here imports quantem or torch.
 from __future__ import annotations
 
 import copy
+import functools
 from collections.abc import Mapping
 
 
@@ -42,6 +43,22 @@ def norm_key(k: str) -> str:
     return k.replace("-", "_")
 
 
+@functools.lru_cache(maxsize=4096)
+def _path(key: str):
+    return tuple(norm_key(p) for p in key.split("."))
+
+
+def cp(v):
+    """copy of a JSON-like value (dict/list containers, immutable leaves)"""
+    if isinstance(v, dict):
+        return {k: cp(x) for k, x in v.items()}
+    if isinstance(v, list):
+        return [cp(x) for x in v]
+    if isinstance(v, (str, int, float, bool, type(None), tuple)):
+        return v
+    return copy.deepcopy(v)
+
+
 def deep_merge(old: dict, new: Mapping) -> dict:
     """in-place merge, new wins on leaves, namespaces merge"""
     for k, v in new.items():
@@ -51,7 +68,7 @@ def deep_merge(old: dict, new: Mapping) -> dict:
                 old[k] = {}
             deep_merge(old[k], v)
         else:
-            old[k] = copy.deepcopy(v)
+            old[k] = cp(v)
     return old
 
 
@@ -59,7 +76,7 @@ def norm_tree(v):
     """value with all mapping keys normalised (two spellings of one key inside a mapping merge in order)"""
     if isinstance(v, Mapping):
         return deep_merge({}, v)
-    return copy.deepcopy(v)
+    return cp(v)
 
 
 class ConfigModel:
@@ -72,7 +89,7 @@ class ConfigModel:
     # ------------------------------------------------------------------ reads
     @staticmethod
     def path(key: str):
-        return tuple(norm_key(p) for p in key.split("."))
+        return _path(key)
 
     def get(self, key: str):
         d = self.cfg
@@ -111,7 +128,7 @@ class ConfigModel:
         k = path[-1]
         if record is not None:
             if k in d:
-                record.append(("replace", tuple(path), copy.deepcopy(d[k])))
+                record.append(("replace", tuple(path), cp(d[k])))
             else:
                 record.append(("insert", tuple(path), None))
         d[k] = value
@@ -172,7 +189,7 @@ class ConfigModel:
                 self._merge_new_defaults(old[k], v, sub if isinstance(sub, dict) else {})
             else:
                 if k not in old or (isinstance(dflt, dict) and k in dflt and _eq(dflt[k], old[k])):
-                    old[k] = copy.deepcopy(v)
+                    old[k] = cp(v)
 
     def refresh(self):
         self.cfg = self.merged_defaults()
